@@ -75,7 +75,7 @@ type Source struct {
 	Reads      int // Read calls (the logical step count)
 	PollsAfter int // calls after the terminal condition was delivered
 	Budget     int
-	MaxPolls   int // high-water mark of PollsAfter within one client call
+	MaxPolls   int  // high-water mark of PollsAfter within one client call
 	Spun       bool // the budget was exceeded at least once
 }
 
